@@ -179,20 +179,29 @@ Fixpoint count_cells (s : skel) : N :=
   | _ => 1
   end.
 
-(* one entry of child_patches_map: (patches, carried cells) *)
+(* result of build_patches_recursive: (patches, carried cells) *)
 Definition entry : Type := (list patch * N)%type.
 
-Definition table_at (table : list (list entry)) (i j : nat) : entry :=
-  nth j (nth i table []) ([], 0).
+(* one entry of child_patches_map: (result for the pair of children, nodes_match of the pair) *)
+Definition tentry : Type := (entry * bool)%type.
 
-Fixpoint collect (table : list (list entry)) (rs : list diff_result) : list patch :=
+Definition table_at (table : list (list tentry)) (i j : nat) : entry :=
+  fst (nth j (nth i table []) (([], 0), false)).
+
+(* score of a pair: carried cells scaled, plus one for a pair of identical children, so that an unchanged sibling
+   outweighs a partial match carrying the same number of cells; 0 when nothing is carried *)
+Definition pair_score (scale : N) (te : tentry) : N :=
+  let '((_, cells), exact) := te in
+  if 0 <? cells then cells * scale + (if exact then 1 else 0) else 0.
+
+Fixpoint collect (table : list (list tentry)) (rs : list diff_result) : list patch :=
   match rs with
   | [] => []
   | Common i j :: rest => fst (table_at table i j) ++ collect table rest
   | _ :: rest => collect table rest
   end.
 
-Fixpoint collect_cells (table : list (list entry)) (rs : list diff_result) : N :=
+Fixpoint collect_cells (table : list (list tentry)) (rs : list diff_result) : N :=
   match rs with
   | [] => 0
   | Common i j :: rest => snd (table_at table i j) + collect_cells table rest
@@ -206,18 +215,19 @@ Fixpoint bp (o n : skel) (so dn : N) {struct o} : entry :=
     match o, n with
     | FnCall ocs, FnCall ncs =>
         let table :=
-          (fix rows (os : list skel) (so' : N) : list (list entry) :=
+          (fix rows (os : list skel) (so' : N) : list (list tentry) :=
              match os with
              | [] => []
              | oc :: os' =>
-                 ((fix cols (ns : list skel) (dn' : N) : list entry :=
+                 ((fix cols (ns : list skel) (dn' : N) : list tentry :=
                      match ns with
                      | [] => []
-                     | nc :: ns' => bp oc nc so' dn' :: cols ns' (dn' + size nc)
+                     | nc :: ns' => (bp oc nc so' dn', nodes_match oc nc) :: cols ns' (dn' + size nc)
                      end) ncs dn)
                  :: rows os' (so' + size oc)
              end) ocs so in
-        let scores := map (map snd) table in
+        let scale := 2 * N.of_nat (length ocs + length ncs + 1) in
+        let scores := map (map (pair_score scale)) table in
         let rs := lcs_by_score (length ocs) (length ncs) scores in
         (nodup patch_eq_dec (collect table rs), collect_cells table rs)
     | _, _ => ([], 0)
